@@ -4,6 +4,7 @@ import (
 	"fmt"
 	"go/token"
 	"go/types"
+	"sort"
 	"strings"
 
 	"golang.org/x/tools/go/ssa"
@@ -24,7 +25,8 @@ func c02(c *eng.Ctx, r *eng.Report) {
 		"R2.5 delete builds a short node around a child only on the not-a-short-node edge of a type test of that child (minimal form); " +
 		"R2.6 only the 16 child slots of a branch are hashed, the value slot (index 16) is carried over verbatim; " +
 		"R2.7 a cached hash is attached only to the node it belongs to — node constructors that take a hash (decodeNode, decodeShort, decodeFull, expandNode) are given nil whenever the node goes into a child slot of another node. " +
-		"Not decided: equality of the root with the Yellow-Paper value for a given content, hex-prefix encoding, iterator order, resolution after cache eviction."
+		"R2.8 the six functions of the hex-prefix (compact) key encoding keep the arithmetic constants that make them inverse to each other and equal to the specification (flag = 2·terminator+odd in the high nibble, high nibble first, terminator nibble 16). " +
+		"Not decided: equality of the root with the Yellow-Paper value for a given content, iterator order, resolution after cache eviction."
 	r.Assume = []string{"nodes are only reachable through the trie package (unexported types)"}
 	c02CopyOnWrite(c, r)
 	c02Dirty(c, r)
@@ -33,6 +35,7 @@ func c02(c *eng.Ctx, r *eng.Report) {
 	c02Minimal(c, r)
 	c02ValueSlot(c, r)
 	c02HashOwner(c, r)
+	c02HexPrefix(c, r)
 }
 
 func isNodePtr(t types.Type) (string, bool) {
@@ -571,4 +574,71 @@ func c02ValueSlot(c *eng.Ctx, r *eng.Report) {
 		ok, why = false, "no h.hash(n.Children[i]) call recognised in hashChildren"
 	}
 	r.Check(ok, rule, "hashChildren:value-slot", c.Pos(hc.Pos()), "only Children[0..15] go through hash/store; the value slot is carried over verbatim", why+": a branch value of 32+ bytes would be replaced by its hash in the node encoding")
+}
+
+// hexPrefixRef: the arithmetic constants of the hex-prefix (compact) key
+// encoding, per function, as the Yellow Paper defines them (appendix C):
+// flag nibble = 2·terminator + odd, high nibble first, terminator nibble 16.
+var hexPrefixRef = map[string][]string{
+	"hexToCompact":  {"<< 5", "| 16", "& 1", "== 1", "/ 2", "+ 1"},
+	"compactToHex":  {"< 2", "& 1", "2 -"},
+	"keybytesToHex": {"/ 16", "% 16", "* 2", "store 16"},
+	"hexToKeybytes": {"/ 2", "& 1", "!= 0"},
+	"decodeNibbles": {"<< 4", "+ 2", "+ 1"},
+	"hasTerm":       {"== 16", "> 0", "- 1"},
+}
+
+// c02HexPrefix: encoder and decoder of the compact key form keep the constants
+// that make them inverse to each other and equal to the specification.
+func c02HexPrefix(c *eng.Ctx, r *eng.Report) {
+	const rule = "R2.8"
+	r.Min(rule, 6)
+	var names []string
+	for n := range hexPrefixRef {
+		names = append(names, n)
+	}
+	sort.Strings(names)
+	for _, n := range names {
+		fn := c.Func("storage/trie", n)
+		if !r.Anchor(fn != nil, rule, "trie."+n) {
+			continue
+		}
+		have := map[string]bool{}
+		for _, b := range fn.Blocks {
+			for _, in := range b.Instrs {
+				switch x := in.(type) {
+				case *ssa.BinOp:
+					if k, ok := eng.ConstInt(x.Y); ok {
+						have[fmt.Sprintf("%s %d", x.Op, k)] = true
+					}
+					if k, ok := eng.ConstInt(x.X); ok {
+						have[fmt.Sprintf("%d %s", k, x.Op)] = true
+					}
+				case *ssa.Store:
+					if k, ok := eng.ConstInt(x.Val); ok {
+						have[fmt.Sprintf("store %d", k)] = true
+					}
+				}
+			}
+		}
+		// arithmetically equivalent spellings of one operation count as that operation
+		equiv := map[string][]string{"<< 5": {"* 32"}, "| 16": {"+ 16", "^ 16"}, "& 1": {"% 2"}, "/ 2": {">> 1"}, "/ 16": {">> 4"}, "% 16": {"& 15"},
+			"* 2": {"<< 1"}, "<< 4": {"* 16"}, "== 1": {"!= 0"}, "!= 0": {"== 1"}}
+		var missing []string
+		for _, w := range hexPrefixRef[n] {
+			ok := have[w]
+			for _, alt := range equiv[w] {
+				ok = ok || have[alt]
+			}
+			if !ok {
+				missing = append(missing, w)
+			}
+		}
+		var got []string
+		for k := range have {
+			got = append(got, k)
+		}
+		sort.Strings(got)
+		r.Check(len(missing) == 0, rule, "hex-prefix:"+n, c.Pos(fn.Pos()), "constants of the compact encoding present: "+strings.Join(hexPrefixRef[n], ", "), n+" lost constant operation(s) "+strings.Join(missing, ", ")+" of the hex-prefix encoding (found: "+strings.Join(got, ", ")+"): encoder and decoder stop being inverse, or the stored keys stop being the specification's, and with them every root")
+	}
 }
